@@ -4,7 +4,6 @@
    are token lists here. *)
 From V.model Require Import Base RelLex RelParse RelAcc RelGrammar RelGrammarAll.
 From V.proofs Require Import BaseP RelLexP RelParseP RelGrammarLexP RelGrammarParseP RelLexInvP.
-Set Default Timeout 60.
 
 Transparent bump skip_ws error expect in_node out_of_fuel version_text version_run cur_is_vtok.
 
